@@ -780,6 +780,13 @@ class _Ctx:
         if isinstance(t, App) and t.fn.startswith('new:'):
             ci = self.prog.classes.get(t.fn[4:])
             return ('inst', ci) if ci else None
+        if isinstance(t, App) and t.fn.startswith('call:'):
+            f = self.prog.functions.get(t.fn[5:])
+            return self.ti.return_type(f) if f is not None else None
+        if isinstance(t, Fresh) and t.kind in ('list', 'listcomp', 'call:list', 'copy'):
+            return ('list', None)
+        if isinstance(t, Fresh) and t.kind in ('dict', 'dictcomp', 'call:dict'):
+            return ('dict', None, None)
         return None
 
     def loc_of_term(self, t: Term) -> Optional[Tuple[str, str]]:
